@@ -25,7 +25,7 @@ def canon(p, b, drop_resource=True):
         for k, v in VOCAB[b].items(): t = t.replace(k, v)
         t = t.replace('(eav->idn, eav->actions, ', '(').replace('(ctx, actions, ', '(')
         if drop_resource and IDNKIT_ONLY.search(t): continue
-        if drop_resource and b == 'idnkit' and t in ('eav', '!eav'): continue     # NULL guard of the resolver release
+        if t in ('eav', '!eav', '(eav == NULL)', '!(eav == NULL)', '(eav != NULL)', '!(eav != NULL)'): continue     # NULL guards on the object (the resolver release has one; any entry point may)
         out.append(t)
     return tuple(out)
 
